@@ -49,6 +49,15 @@ def kf_matches(kf, ob: Obligation) -> bool:
 
 
 def main(argv=None):
+    if not os.environ.get("PYVC_TMP"):
+        # scratch directory of this run (SMT-LIB dumps for the CLI back ends), removed at exit also when workers were terminated
+        import atexit
+        import shutil
+        import tempfile
+
+        _tmp = tempfile.mkdtemp(prefix="pyvc_run.")
+        os.environ["PYVC_TMP"] = _tmp
+        atexit.register(shutil.rmtree, _tmp, True)
     ap = argparse.ArgumentParser()
     ap.add_argument("prop")
     ap.add_argument("--tier", default=os.environ.get("VERIF_TIER", "quick"), choices=["quick", "thorough"])
